@@ -63,6 +63,8 @@ type fnCtx struct {
 	noGlobalInit int
 	verCounter   int
 	preHeaps     bool
+	oldWrites    map[string]bool
+	locals       map[string]Val
 	globalVals map[*ssa.Global]Val
 	globalSyms map[string]*ssa.Global
 }
@@ -445,7 +447,7 @@ func (fc *fnCtx) run() {
 	if fc.con != nil {
 		env := fc.envAt(st, nil)
 		for _, c := range fc.con.Requires {
-			fc.assume(st, fc.evalClause(env, c))
+			fc.assume(st, fc.evalAssume(env, c))
 		}
 		// vacuity cover: requires satisfiable
 		fc.obls = append(fc.obls, &Obligation{Name: fc.g.fnName(fn) + "#cover.requires", Kind: "cover", Reach: st.reach, Goal: "false", Func: fc.g.fnName(fn), fc: fc, Cover: true, Props: fc.propsAll})
@@ -627,23 +629,41 @@ func (fc *fnCtx) phis(b *ssa.BasicBlock, st *State) {
 // ok=false means "anything" (abstract call or unknown store).
 func (fc *fnCtx) writeSet(blocks map[*ssa.BasicBlock]bool) (names map[string]bool, all bool) {
 	names = map[string]bool{}
+	fc.oldWrites = map[string]bool{}
 	for b := range blocks {
 		for _, ins := range b.Instrs {
 			switch ins := ins.(type) {
 			case *ssa.Store:
-				if !fc.staticTargets(ins.Addr, names) {
+				tmp := map[string]bool{}
+				if !fc.staticTargets(ins.Addr, tmp) {
 					all = true
+				}
+				freshRoot := false
+				if a, ok := rootOf(ins.Addr).(*ssa.Alloc); ok && blocks[a.Block()] {
+					freshRoot = true
+				}
+				for k := range tmp {
+					names[k] = true
+					if !freshRoot {
+						fc.oldWrites[k] = true
+					}
 				}
 			case *ssa.MapUpdate:
 				if m, ok := ins.Map.Type().Underlying().(*types.Map); ok {
 					d, v := fc.mapHeaps(m)
 					names[d], names[v] = true, true
+					fc.oldWrites[d], fc.oldWrites[v] = true, true
 				} else {
 					all = true
 				}
 			case *ssa.Call:
-				if fc.callWrites(ins.Common(), names) {
+				tmp := map[string]bool{}
+				if fc.callWrites(ins.Common(), tmp) {
 					all = true
+				}
+				for k := range tmp {
+					names[k] = true
+					fc.oldWrites[k] = true
 				}
 			case *ssa.Defer, *ssa.Go, *ssa.Send, *ssa.Select:
 				all = true
@@ -762,6 +782,7 @@ func (fc *fnCtx) loopHeader(li *loopInfo, st *State) {
 	kind := fmt.Sprintf("loop%d.inv", li.ord)
 	if spec != nil {
 		env := fc.envAt(st, fc.entry)
+		env.useLocals = true
 		env.loopVars = fc.loopVarMap(phis, func(p *ssa.Phi) string { return incoming[p] })
 		for _, c := range spec.Invariants {
 			fc.oblige(st, kind+".init", fc.evalClause(env, c), b.Instrs[0].Pos(), clauseProps(c, fc.propsAll), c.Text)
@@ -774,7 +795,15 @@ func (fc *fnCtx) loopHeader(li *loopInfo, st *State) {
 		fc.note("loop %d: body may write any heap (abstract call); whole heap havoc'd at header", li.ord)
 	} else {
 		for _, n := range sortedKeys(names) {
+			before := fc.H(st, n)
 			fc.havocHeap(st, n)
+			if !fc.oldWrites[n] {
+				// every write to this heap inside the loop goes to an object allocated inside the loop:
+				// locations that existed at loop entry keep their values
+				after := fc.H(st, n)
+				bv := Sym(strings.ReplaceAll(strings.Trim(fc.sc.Fresh("q.loc"), "|"), "~", "_"))
+				fc.assume(st, fmt.Sprintf("(forall ((%s Ref)) (! (=> (< (ageR %s) %s) (= (select %s %s) (select %s %s))) :pattern ((select %s %s))))", bv, bv, st.alloc, after, bv, before, bv, after, bv))
+			}
 		}
 	}
 	// allocation counter may grow
@@ -799,9 +828,10 @@ func (fc *fnCtx) loopHeader(li *loopInfo, st *State) {
 	// 4. assume invariant
 	if spec != nil {
 		env := fc.envAt(st, fc.entry)
+		env.useLocals = true
 		env.loopVars = fc.loopVarMap(phis, func(p *ssa.Phi) string { return fc.vals[p].T })
 		for _, c := range spec.Invariants {
-			fc.assume(st, fc.evalClause(env, c))
+			fc.assume(st, fc.evalAssume(env, c))
 		}
 	}
 }
@@ -884,6 +914,7 @@ func (fc *fnCtx) backEdge(p *ssa.BasicBlock, st *State, cond string, li *loopInf
 	st2 := st.clone()
 	fc.assume(st2, cond)
 	env := fc.envAt(st2, fc.entry)
+	env.useLocals = true
 	env.loopVars = fc.loopVarMap(phis, func(ph *ssa.Phi) string { return fc.get(ph.Edges[idx]).T })
 	kind := fmt.Sprintf("loop%d.inv", li.ord)
 	for _, c := range spec.Invariants {
